@@ -570,7 +570,7 @@ def r_stack_monotone(ctx, rep, rule):
                             n += 1
                             rep.fail(rule, "%s|%s|%s-vm-stack" % (rule, f.short, c.rsplit("::", 1)[-1]),
                                      "%s swaps out Vm.stack" % f.short, [t["loc"]])
-    rep.floor(rule, "length-relevant writes of the stack vector", n, 2)
+    rep.floor(rule, "length-relevant writes of the stack vector", n, 1)
     rc = facts.fn(STACK + "restore_continuation")
     if rc is not None:
         uses = [callee(t).rsplit("::", 1)[-1] for bb, t in rc.calls()]
